@@ -1261,7 +1261,7 @@ func (r *replicateChannelHandler) innerHandleReplicateMsg(forward bool, msg *api
 	}
 	msgPack := msg.MsgPack
 	p := r.handlePack(forward, msgPack, msg.TaskID)
-	if p == api.EmptyMsgPack {
+	if p == nil || p == api.EmptyMsgPack {
 		verifPoint("done-empty", r.getTSManagerChannelKey(r.targetPChannel), msg)
 		return
 	}
